@@ -93,6 +93,31 @@ def known_finding_replays(ctx):
                     key="findMatching:spurious-slow-wall-solution")
     except Exception as ex:
         ctx.log("known-finding replay (b) could not be run:", repr(ex))
+    # (c) brentq in v+ converges onto a jump of shockTnuclDiff made by unconverged inner solves
+    try:
+        from test_Hydrodynamics import TestModel2Step
+        model = TestModel2Step(0.2, 0.1, 0.4, 0.55)
+        h = new_hydro(model, (10, 0.01, 1e-6, 1e-10))
+        vw = 0.2448782744953586
+        (vp, vm, Tp, Tm), conv = matching(h, vw)
+        ctx.count("known_finding_replay", bucket="vp-root-on-unconverged-jump")
+        if vp is not None and float(Tp) < model.Tnucl * (1 - 1e-3):
+            back = vp_root_on_jump(h, vw, vp, Tp)
+            if back is not None:
+                what = ("findMatching(%.16g) = (v+=%.6f, v-=%.6f, T+=%.6f, T-=%.6f) with T+ < Tn="
+                        "%.2f; the shock from it ends at %.6f, not Tn [2step Tn=0.55, "
+                        "Hydrodynamics(model,10,0.01,1e-6,1e-10)]" % (
+                            vw, vp, vm, Tp, Tm, model.Tnucl, back))
+                rep = dict(kind="matching", case=dict(eos="2step", Tn=0.55), vw=vw,
+                           hydro=[10, 0.01, 1e-6, 1e-10], shock_end=back)
+                if any(k.get("property") == "C06" and k.get("key") == KNOWN_JUMP
+                       for k in ctx.known.get("findings", [])):
+                    ctx.fail_input(what, rep, key=KNOWN_JUMP)
+                else:
+                    # proposed in findings/C06_known_entries.json, not registered yet
+                    ctx.log("candidate finding (not registered):", what)
+    except Exception as ex:
+        ctx.log("known-finding replay (c) could not be run:", repr(ex))
 
 # =======================================================================================
 # 1. correspondence: decision model (Model/RangeLimit.v, Q instance) vs the real methods
@@ -454,6 +479,61 @@ class MatchingGuard:
         return False
 
 
+HYBR = {"last": None, "installed": False, "calls": []}
+
+
+def install_hybr_spy():
+    """record (from outside, no source change) the result of the last scipy root(hybr) call
+    made by matchDeflagOrHyb: a matching whose 2x2 solve did NOT converge is returned all the
+    same (C02 unconverged-matching-returned / -accepted) -- the narrow mechanism behind the
+    C06 known finding findMatching:spurious-slow-wall-solution"""
+    import WallGo.hydrodynamics as hmod
+    if HYBR["installed"] and getattr(hmod.root, "c06_spy", False):
+        return
+    orig = hmod.root
+
+    def spy(*a, **k):
+        r = orig(*a, **k)
+        HYBR["last"] = r
+        HYBR["calls"].append(bool(r.success))
+        return r
+    spy.c06_spy = True
+    hmod.root = spy
+    HYBR["installed"] = True
+
+
+def matching(h, vw):
+    """h.findMatching(vw) and whether its last hybr solve converged (None: no hybr call)"""
+    install_hybr_spy()
+    HYBR["last"] = None
+    HYBR["calls"] = []
+    r = h.findMatching(float(vw))
+    last = HYBR["last"]
+    return r, (None if last is None else bool(last.success))
+
+
+SLOW = 0.05     # "very slow wall" of the known finding
+KNOWN_SLOW = "findMatching:spurious-slow-wall-solution"
+KNOWN_JUMP = "findMatching:vp-root-on-unconverged-jump"
+
+
+def vp_root_on_jump(h, vw, vp, Tp):
+    """Narrow mechanism of the finding KNOWN_JUMP, measured on the live object right after
+    matching(h, vw): the final 2x2 solve converged, but while brentq searched v+ at least one
+    inner matchDeflagOrHyb solve did not (its garbage makes shockTnuclDiff jump), and the
+    returned (v+, T+) does NOT satisfy the shock boundary condition: the shock started from it
+    ends at a temperature more than 0.1% away from Tn."""
+    calls = list(HYBR["calls"])
+    if not calls or not calls[-1] or all(calls):
+        return None
+    try:
+        back = float(h.solveHydroShock(float(vw), float(vp), float(Tp)))
+    except Exception:
+        return None
+    return back if abs(back - h.Tnucl) > 1e-3 * h.Tnucl else None
+
+
+
 def deton_residual(model, vw, tm):
     """the residual handed to brentq in matchDeton (harness copy, for scanning)"""
     Tn = model.Tnucl
@@ -641,7 +721,7 @@ def admissibility(ctx, label, case, model, h):
     for vw in grid:
         rep = dict(kind="matching", case=case, vw=float(vw), hydro=list(h.c06_args))
         try:
-            vp, vm, Tp, Tm = h.findMatching(float(vw))
+            (vp, vm, Tp, Tm), conv = matching(h, vw)
         except Exception as ex:
             ctx.fail_input("findMatching(%.6f) raised %r [%s]" % (vw, ex, label), rep,
                            key="findMatching-raises")
@@ -661,8 +741,12 @@ def admissibility(ctx, label, case, model, h):
         kind = "detonation" if deton else ("deflagration" if vw < cs else "hybrid")
         ctx.count("admissibility", dict(case=case, vw=round(float(vw), 9)),
                   bucket="%s:%s" % (case["eos"], kind))
+        # T+ - Tn is only ~1e-6 Tn for slow walls while the inner root for Tn stops at
+        # xtol = atol (absolute) and the outer one at rtol: the shock solve determines T+ to
+        # ~100 max(rtol, atol/Tn) (measured: 7e-6 at atol = 1e-7)
         bad = clause_failures(kind, vw, vp, vm, Tp, Tm, cs, Tn, h.vJ,
-                              tol=max(1e-9, 10 * max(h.c06_args[2], h.c06_args[3])))
+                              tol=max(1e-9, 100 * max(h.c06_args[2], h.c06_args[3] / Tn)))
+        rep["hybr_converged"] = conv
         if deton and not bad:
             # hypothesis of first_root_detonation_is_weak: residual >= 0 on [Tn, Tm)
             ts = np.linspace(Tn, Tm, 24)[:-1]
@@ -672,8 +756,21 @@ def admissibility(ctx, label, case, model, h):
             if min(r) < -1e-7 * sc:
                 bad.append("detonation root is not the first root above Tn (residual changes "
                            "sign before it)")
-        slow = (not deton) and vw < 0.01
-        offT = abs(Tp - Tn) > 5e-3 * Tn        # a wall this slow heats the plasma by < 1e-4 Tn
+        if bad and not deton and all("T+ below" in b for b in bad):
+            back = vp_root_on_jump(h, vw, vp, Tp)
+            if back is not None:
+                ctx.fail_input("vw=%.6f: v+=%.6f T+=%.6f T-=%.6f is not the matching for Tn=%.4g: "
+                               "its shock ends at %.6f; brentq in v+ stopped on a jump caused by "
+                               "unconverged inner 2x2 solves (%d of %d) [%s]" % (
+                                   vw, vp, Tp, Tm, Tn, back, HYBR["calls"].count(False),
+                                   len(HYBR["calls"]), label), dict(rep, shock_end=back),
+                               key=KNOWN_JUMP)
+                continue
+        # narrow class rule of the known finding: a very slow wall (vw < 0.05, where the true
+        # T+ - Tn < 1e-3 Tn) whose last hybr solve did NOT converge, whose T+ is off Tn by more
+        # than 0.5% or below Tn, and at which no other clause fails
+        slow = (not deton) and vw < SLOW and conv is False
+        offT = abs(Tp - Tn) > 5e-3 * Tn or any("T+ below" in b for b in bad)
         if slow and offT and all("T+ below" in b for b in bad):
             pending.append((vw, rep, bad))
         else:
@@ -682,23 +779,16 @@ def admissibility(ctx, label, case, model, h):
                                "[%s]" % (vw, b, vp, vm, Tp, Tm, cs, h.vJ, label), rep,
                                key="admissibility:" + b.split(" (")[0])
         curve.append((float(vw), Tp, Tm, deton))
-    # narrow class rule of the known finding findMatching:spurious-slow-wall-solution: a wall
-    # slower than 0.01 whose T+ is off Tn by > 0.5% although the next faster scanned wall
-    # (< 0.05) has T+ within 0.1% of Tn, and no other clause fails at that point
     jump_v = None
     for vw, rep, bad in pending:
-        nxt = [c for c in curve if vw < c[0] < 0.05 and abs(c[1] - Tn) < 1e-3 * Tn]
-        if nxt:
-            jump_v = max(jump_v or 0.0, nxt[0][0])
-            ctx.fail_input("vw=%.6f: spurious slow-wall solution T+=%.6f T-=%.6f (Tn=%.4g; at "
-                           "vw=%.4g T+=%.6f) [%s]" % (vw, rep["Tp"], rep["Tm"], Tn, nxt[0][0],
-                                                     nxt[0][1], label), rep,
-                           key="findMatching:spurious-slow-wall-solution")
-        else:
-            for b in bad or ["slow wall with T+ off the nucleation temperature"]:
-                ctx.fail_input("vw=%.6f: %s (T+=%.6f T-=%.6f Tn=%.4g) [%s]" % (
-                    vw, b, rep["Tp"], rep["Tm"], Tn, label), rep,
-                    key="admissibility:" + b.split(" (")[0])
+        jump_v = max(jump_v or 0.0, vw)
+        ctx.fail_input("vw=%.6f: spurious slow-wall solution from an unconverged 2x2 solve: "
+                       "T+=%.6f T-=%.6f (Tn=%.4g) [%s]" % (vw, rep["Tp"], rep["Tm"], Tn, label),
+                       rep, key=KNOWN_SLOW)
+    if jump_v is not None:
+        # the next scanned wall above the spurious ones
+        nxt = [c[0] for c in curve if c[0] > jump_v]
+        jump_v = nxt[0] if nxt else jump_v
     return curve, jump_v
 
 
@@ -863,7 +953,7 @@ def range_limits(ctx, label, case, curve, h0, jump_v):
                ("both", Tm_lo + rng.uniform(0.3, 0.9) * (Tm_hi - Tm_lo),
                 Tp_lo + rng.uniform(0.3, 0.9) * (Tp_hi - Tp_lo)),
                ("ample", big, big)]
-    known_key = "findMatching:spurious-slow-wall-solution"
+    known_key = KNOWN_SLOW
     prev_raised_flag = False
     for which, TML, TMH in configs:
         if TML <= Tn or TMH <= Tn:
@@ -922,8 +1012,14 @@ def range_limits(ctx, label, case, curve, h0, jump_v):
             top = min(vmax, h.vJ - h.vBracketLow) - 1e-6
             bottom = max(lo + 1e-3, (jump_v or 0.0) * 1.001)
             for vw in np.linspace(bottom, top, ctx.n(6, 25)):
-                _, _, Tp, Tm = h.findMatching(float(vw))
+                (_, _, Tp, Tm), conv = matching(h, vw)
                 ctx.count("slower_wall")
+                if conv is False and vw < SLOW:
+                    if Tm > TML * (1 + tolT) or Tp > TMH * (1 + tolT):
+                        ctx.fail_input("slower wall vw=%.6f out of range at a spurious slow-wall "
+                                       "solution (unconverged 2x2 solve) [%s]" % (vw, label),
+                                       dict(rep, vw=float(vw)), key=known_key)
+                    continue
                 margin("slower_wall_T/TMax-1 (tolT)", max(Tm / TML, Tp / TMH) - 1, tolT)
                 if Tm > TML * (1 + tolT) or Tp > TMH * (1 + tolT):
                     ctx.fail_input(
